@@ -19,7 +19,7 @@ META = common.meta(
 
 def tasks(tier, seed):
     out = []
-    n = 60 if tier == 'quick' else 420
+    n = 60 if tier == 'quick' else common.thorough(420)
     for k in range(n):
         out.append(('vt.props.c09', 't3_case', {'seed': seed, 'k': k, 'backend': 'T3', 'd': 1 + k % 3,
                                                 'flavour': ['markov', 'real', 'complex'][(k // 3) % 3],
